@@ -2,6 +2,7 @@ package c12
 
 import (
 	"bytes"
+	"crypto/ecdsa"
 	"encoding/binary"
 	"fmt"
 	"io"
@@ -162,12 +163,12 @@ var hasConsumer = map[uint64]bool{
 }
 
 type msgSource struct {
-	t      *rapid.T
-	w      *sim.World
-	g      *gossipNode
-	p      *point // the object generators' view of the same node
-	chain  []*types.Block
-	certs  map[common.Hash]*types.BlockCert
+	t     *rapid.T
+	w     *sim.World
+	g     *gossipNode
+	p     *point // the object generators' view of the same node
+	chain []*types.Block
+	certs map[common.Hash]*types.BlockCert
 	// a request for a block range is outstanding at the peer under this id
 	batchId uint32
 	batch   *protocol.VerifC12Batch
@@ -237,18 +238,28 @@ func (m *msgSource) payload(code uint64) ([]byte, string) {
 			return mustBytes(p.honest.ToBytes()), "honest"
 		}
 		c := genHostileHeaderBlock(t, w, v.Head(), p.honest.Block)
-		proof, _ := p.hostileProof("frameProposalProof")
+		var proofKey *ecdsa.PrivateKey
+		if c.block.Header != nil && c.block.Header.ProposedHeader != nil {
+			if addr, err := crypto.PubKeyBytesToAddress(c.block.Header.ProposedHeader.ProposerPubKey); err == nil && w.ByAddr[addr] != nil {
+				proofKey = w.ByAddr[addr].Key
+			}
+		}
+		proof, _ := p.hostileProof("frameProposalProof", proofKey)
 		return mustBytes(p.signProposal(c.block, proof).ToBytes()), "hostile-header"
 	case protocol.ProposeProof:
-		proof, _ := p.hostileProof("frameProof")
+		signer := w.Actors[pick(t, "proofSigner", len(w.Actors))]
+		proof, _ := p.hostileProof("frameProof", signer.Key)
 		pp := &types.ProofProposal{Proof: proof, Round: v.Chain.Round() + uint64(pick(t, "roundAhead", 2))}
-		signProof(pp, w.Actors[pick(t, "proofSigner", len(w.Actors))])
+		signProof(pp, signer)
 		return mustBytes(pp.ToBytes()), "proof"
 	case protocol.Vote:
 		head := v.Head()
 		vote := &types.Vote{Header: &types.VoteHeader{Round: head.Height() + 1, Step: uint8(rapid.SampledFrom([]int{1, types.ReductionOne, types.Final}).Draw(t, "step")), ParentHash: head.Hash(), VotedHash: m.someHash(),
 			TurnOffline: rapid.Bool().Draw(t, "off"), Upgrade: uint32(pick(t, "upg", 14))}}
 		signVote(vote, w.Actors[pick(t, "voter", len(w.Actors))])
+		if pick(t, "voteSigConst", 4) == 3 {
+			vote.Signature, _ = hostileEcdsaSig(t, "frameVoteSig", vote.Signature, nil)
+		}
 		if pick(t, "voteHeaderAbsent", 8) == 7 {
 			vote.Header = nil
 			return mustBytes(vote.ToBytes()), "vote-without-header"
@@ -288,7 +299,11 @@ func (m *msgSource) payload(code uint64) ([]byte, string) {
 		return mustBytes(f.ToBytes()), "flip"
 	case protocol.FlipKey:
 		a := w.Actors[pick(t, "keySender", len(w.Actors))]
-		k, _ := types.SignFlipKey(&types.PublicFlipKey{Key: rapid.SampledFrom([][]byte{nil, make([]byte, 32), crypto.FromECDSA(a.Key), make([]byte, 33)}).Draw(t, "flipKey"), Epoch: uint16(int(v.ReadState().State.Epoch()) + pick(t, "epochAhead", 2))}, a.Key)
+		keyBytes := rapid.SampledFrom([][]byte{nil, make([]byte, 32), crypto.FromECDSA(a.Key), make([]byte, 33)}).Draw(t, "flipKey")
+		if rapid.Bool().Draw(t, "flipKeyConst") {
+			keyBytes, _ = hostilePrivScalar(t, "frameFlipKey")
+		}
+		k, _ := types.SignFlipKey(&types.PublicFlipKey{Key: keyBytes, Epoch: uint16(int(v.ReadState().State.Epoch()) + pick(t, "epochAhead", 2))}, a.Key)
 		return mustBytes(k.ToBytes()), "flipkey"
 	case protocol.SnapshotManifest:
 		return mustBytes((&snapshot.Manifest{Root: m.someHash(), Height: rapid.SampledFrom([]uint64{0, 1, v.Head().Height(), math.MaxUint64}).Draw(t, "manifestHeight"),
@@ -302,7 +317,11 @@ func (m *msgSource) payload(code uint64) ([]byte, string) {
 		return mustBytes(proto.Marshal(q)), "query"
 	case protocol.FlipKeysPackage:
 		a := w.Actors[pick(t, "pkgSender", len(w.Actors))]
-		k, _ := types.SignFlipKeysPackage(&types.PrivateFlipKeysPackage{Data: junk(t, "pkgData", 0, 200), Epoch: uint16(int(v.ReadState().State.Epoch()) + pick(t, "epochAhead", 2))}, a.Key)
+		pkgData := junk(t, "pkgData", 0, 200)
+		if rapid.Bool().Draw(t, "pkgConst") {
+			pkgData, _ = hostileEcies(t, "framePkg", sim.DeriveKey(w.P.KeySeed^0x77, a.Idx), nil)
+		}
+		k, _ := types.SignFlipKeysPackage(&types.PrivateFlipKeysPackage{Data: pkgData, Epoch: uint16(int(v.ReadState().State.Epoch()) + pick(t, "epochAhead", 2))}, a.Key)
 		return mustBytes(k.ToBytes()), "package"
 	case protocol.Push, protocol.Pull:
 		return mustBytes(m.pushHash().ToBytes()), "hash"
@@ -499,7 +518,6 @@ func mutate(t *rapid.T, b []byte, label string) ([]byte, string) {
 
 // forgedClaims are the hostile decoded-length claims of an s2/snappy block (DESIGN.md: above the cap, yet cheap).
 var forgedClaims = []uint64{1 << 28, 1<<28 + 1<<27}
-
 
 type frameCase struct {
 	code    uint64
